@@ -52,6 +52,7 @@ func runC16(c *Ctx) {
 	c.rule("valid-on-success", "the (reflect.Value, error) functions of the parse package never return the zero Value with a nil error: a path on which nothing was boxed (a kind routed to a parser but missing from the boxing switch) must be infeasible for every reflect.Kind", 3)
 	c.rule("overflow-after-convertible", "the flag source calls its reflect-Overflow helper only after value.Type().ConvertibleTo(T) succeeded for the very type T the target was allocated with (reflect Overflow* panics on receivers of other kind classes)", 1)
 	c.rule("shared-manglers-stateless", "no method of a mangler kept in a package-level variable (one instance for every concurrent decode of the process) writes a map or a location reachable from its receiver", 1)
+	c.rule("reverse-skips-untranslated", "(shared with C10) ReverseTranslate calls Unmangle only for state entries TranslateType actually mangled (a mangler handed a zero StructField and no values indexes an empty slice)", 1)
 	c.rule("addr-guard", "every reflect.Value.Addr in the decoders, manglers, parsers and wrappers has a receiver that is addressable by construction (reflect.New(T).Elem(), a field or element of such, the successful result of a repository function that only returns such values) or under a CanAddr test", 6)
 	c.rule("anon-struct-only", "the anonymous-flatten mangler strips the pointer of an embedded field (Mangle) and rebuilds it through the NumField-calling helper (Unmangle) only under a test that the pointee is a struct; both directions agree", 3)
 	c.rule("wrong-error-returned", "(contradiction rule, whole repository) no return inside the failure branch of one error hands back a different error value that is known nil on that path (a wrong-variable slip that turns a detected failure into (nil, nil), which the caller then indexes or dereferences)", 1)
@@ -140,6 +141,7 @@ func runC16(c *Ctx) {
 	c16AddrGuard(c)
 	c16OverflowAfterConvertible(c)
 	c16SharedManglersStateless(c, "shared-manglers-stateless")
+	c10ReverseSkipsUntranslated(c, "reverse-skips-untranslated")
 	c16ValidOnSuccess(c)
 	c16Loops(c)
 }
